@@ -284,6 +284,21 @@ func histories(r *monitor.Run, kind string, idx int, rng *rand.Rand, nAttempts, 
 	}
 	defer func() { b.Stop(step) }()
 	seq := 0
+	former := map[string]string{} // deleted accounts or replaced passwords: user -> credential that once was valid
+	formerAttempts := func(ctx string) {
+		users := make([]string, 0, len(former))
+		for u := range former {
+			users = append(users, u)
+		}
+		sort.Strings(users)
+		for _, u := range users {
+			if cur, ok := accounts[u]; ok && expected(map[string]string{u: cur}, kind, Attempt{HasUser: true, HasPass: true, User: u, Pass: former[u]}) {
+				continue // the old credential happens to verify against the current one
+			}
+			seq++
+			checkAttempt(r, b, accounts, kind, Attempt{V: []byte{4, 5}[seq%2], HasUser: true, HasPass: true, User: u, Pass: former[u], PassDesc: "formerly_valid", Clean: true}, fmt.Sprintf("h%d-%d", idx, seq), ctx)
+		}
+	}
 	attempts := func(n int, ctx string) {
 		for _, at := range matrix(rng, accounts, kind, n, true) {
 			seq++
@@ -303,6 +318,9 @@ func histories(r *monitor.Run, kind string, idx int, rng *rand.Rand, nAttempts, 
 				r.Violation("account.update_error", "Update failed: "+err.Error(), nil)
 				return
 			}
+			if old, had := accounts[u]; had && old != pw {
+				former[u] = old
+			}
 			accounts[u] = pw
 			r.Count("account_updates", 1)
 			// takes effect for the next CONNECT
@@ -315,6 +333,9 @@ func histories(r *monitor.Run, kind string, idx int, rng *rand.Rand, nAttempts, 
 				return
 			}
 			delete(accounts, u)
+			if had {
+				former[u] = old
+			}
 			r.Count("account_deletes", 1)
 			if had {
 				seq++
@@ -334,6 +355,7 @@ func histories(r *monitor.Run, kind string, idx int, rng *rand.Rand, nAttempts, 
 			if len(accounts) > 0 {
 				attempts(6, "after restart on the same password file")
 			}
+			formerAttempts("formerly valid credentials after a restart on the same password file")
 		}
 		if len(accounts) == 0 {
 			accounts["alice"] = "again"
@@ -348,6 +370,14 @@ func histories(r *monitor.Run, kind string, idx int, rng *rand.Rand, nAttempts, 
 		}
 	}
 	attempts(nAttempts/2, "after the account history")
+	// one more restart: nothing that was deleted or replaced comes back
+	if err := b.Stop(step); err == nil {
+		if b, a, err = startBroker(kind, pwFile, "", true); err == nil {
+			formerAttempts("formerly valid credentials after the final restart")
+		} else {
+			r.Violation("restart.load_failed:hash="+kind, "restarted broker cannot load the password file the plugin wrote: "+err.Error(), nil)
+		}
+	}
 }
 
 // relativePath: password_file relative to config_dir; changes must be what a restarted broker loads.
